@@ -93,7 +93,18 @@ def tx_nontrivial(e):
     return None
 
 
+def pure_nontrivial(kind):
+    import json
+    return lambda e: (json.dumps(e.get("a"), sort_keys=True)[:400], e.get("res")) if e.get("ev") == kind else None
+
+
 PROPS = {
+    "C18": {"models": [{"name": "curve", "module": "Curve.tla", "cfg": {"quick": "MC_CurveQuick.cfg", "thorough": "MC_CurveThorough.cfg"},
+                        "setup": "setups/empty.json", "timeout": {"quick": 900, "thorough": 7200}}],
+            "drivers": [{"name": "curve", "args": {"quick": [3000], "thorough": [100000]}}],
+            "nontrivial": pure_nontrivial("curve"),
+            "rule": "each curve configuration passed to the real validate() (and, if accepted, calc_interest_rate over an ascending utilization sweep) is one evaluation; all are non-trivial; distinct by configuration",
+            "min_nontrivial": 1000},
     "C10": {"models": [txm("Recv")], "drivers": ADMIN_DRIVERS + LIQ_DRIVERS, "nontrivial": tx_nontrivial,
             "rule": "each instruction list executed as one atomic transaction on the real program is one evaluation; all are non-trivial; distinct by (instruction list, result)",
             "min_nontrivial": 1000},
